@@ -54,6 +54,11 @@ fn golden_events(lang: &langs::Lang) -> Vec<Ev> {
         let pl = Place { form: f, ..Default::default() };
         ev.extend([Ev::Open { tag, place: pl.clone() }, Ev::Code(1), Ev::Close { spelling: 0, place: pl }, Ev::Code(2)]);
     }
+    // every string / here-doc / CDATA form of the language holding a tag look-alike: only the language's own
+    // grammar is sure to keep all of them out of the comments (C++ raw strings under the C grammar are not)
+    for k in 0..lang.decoys.len() as u16 {
+        ev.extend([Ev::Decoy { tpl: k, tag: (k % 5) as u8 }, Ev::Code(3)]);
+    }
     ev
 }
 
@@ -263,7 +268,7 @@ pub fn random_case() -> BoxedStrategy<NameCase> {
 }
 
 pub fn run(run: &mut Run) {
-    run.rule = "enumerated: for each of the 39 registered suffixes 13..18 file-name shapes (x.s, x.y.s, hidden .x.s, dotted directories, spaces, x.s.bak, xs, trailing dot, double dot, s.x, x.rs.s, upper-case, whole-name forms for Makefile/makefile/go.mod/go.sum/go.work) in one tree, listed in scan mode and in diff mode (hidden files only count when named in the diff); 7 mapping keys (unregistered, registered, compound, upper-case) x all 39 values with 8 name shapes each; a multi-mapping tree; 21 rejected mappings. random (thorough weight): multi-dot names over registered/unregistered segments with 0..2 mappings. Files resolving to a grammar hold that language's golden blocks (one per comment form, ground truth by construction); files resolving to none hold unbalanced tag garbage. Expected by a reference resolver. Non-trivial = a name that is not plain `stem.ext`, or a mapping.".into();
+    run.rule = "enumerated: for each of the 39 registered suffixes 13..18 file-name shapes (x.s, x.y.s, hidden .x.s, dotted directories, spaces, x.s.bak, xs, trailing dot, double dot, s.x, x.rs.s, upper-case, whole-name forms for Makefile/makefile/go.mod/go.sum/go.work) in one tree, listed in scan mode and in diff mode (hidden files only count when named in the diff); 7 mapping keys (unregistered, registered, compound, upper-case) x all 39 values with 8 name shapes each; a multi-mapping tree; 21 rejected mappings. random (thorough weight): multi-dot names over registered/unregistered segments with 0..2 mappings. Files resolving to a grammar hold that language's golden blocks (one per comment form, ground truth by construction) followed by every string / here-doc / CDATA decoy of the language holding a tag look-alike (so that a neighbouring grammar gives a different answer); files resolving to none hold unbalanced tag garbage. Expected by a reference resolver. Non-trivial = a name that is not plain `stem.ext`, or a mapping.".into();
     run.assumptions = vec!["a file whose whole name equals an extension-style key (py, rs, c) is unspecified and not created".into()];
     run.enumerate("shapes", enumerated(), Some("name shapes x 39 suffixes; 7 mapping keys x 39 values"), check);
     run.enumerate("rejects", enumerated_rejects(), Some("21 mappings onto unsupported grammars"), check_reject);
